@@ -38,7 +38,7 @@ claim("C08",
       "static analysis: parallel-store pairing via dominance/post-dominance on the CFG, callee summaries, def-use of the `recursive` argument, lexical scope check")
 claim("C09",
       "Decides the clause 'every operator form Python can dispatch to the expression, including all reflected operators, is supported' (the operator table of class rx is complete for the data model's binary operators, every referenced operator/math function exists, reflected forms apply the forward function with reverse=True, each special method maps to the stdlib function the data model assigns to it, _eval_operation swaps operands iff reverse) and two necessary conditions of cache coherence: every internal parameter of an expression gets the invalidation watcher, unfiltered (R09.e), every invalidation marks the node dirty and clears the stored error on every path, and the raw cache slot is read only by the resolver (R09.f); _apply_operator records the caller's reverse flag unchanged (R09.d).",
-      "Cache coherence of .rx.value under read/update histories as a whole, the .rx helper namespace (where, pipe, ...) and rx.watch delivery are NOT decided; R09.e/f are necessary, not sufficient. The stdlib attribute sets of `operator`/`math` are read from the interpreter running the check.",
+      "Cache coherence of .rx.value under read/update histories as a whole, the .rx helper namespace (where, pipe, ...) and the values delivered by rx.watch are NOT decided (R09.h decides only that the watch callback hands every value on and keeps no state shared between registrations; R09.g that container change detection is exact); R09.e/f are necessary, not sufficient. The stdlib attribute sets of `operator`/`math` are read from the interpreter running the check.",
       "static analysis: table-agreement check of sibling special methods against the language-reference operator table")
 claim("C10",
       "Structural decision of four obligations from which latest-wins follows for every completion order: no suspension point inside a `with _syncing(...)` body (R10.a); every cancel of an async_refs entry deregisters or re-registers before the next suspension (R10.b); in _async_ref every path to a suspension point owns async_refs[pname] (R10.d); in reactive.py writes of the cached value and of the ownership token after a suspension are guarded by `self._current_task is task` with the task registered before the first suspension (R10.c); taking over an entry cancels the previous owner unconditionally (R10.e); a synchronous rx result resets the token (R10.g); scheduling implies ownership (R10.f -- violated on the pinned tree, recorded as a known finding: a task is only registered when it starts running); an asynchronous reference is scheduled unconditionally (R10.h) and every constructor reference is recorded (R10.i).",
@@ -90,6 +90,17 @@ def main():
     checks = []
     for pid in sorted(CLAIMS):
         text, note, tech = CLAIMS[pid]
+        # the authoritative list of what the check decides: the rule table of the checker itself
+        # (taken from the evidence file the check wrote on its last run against /repo)
+        try:
+            ev = json.load(open(os.path.join(VERIF, "evidence", "%s.json" % pid)))
+            rules = ev["coverage"]["rules"]
+            text += " -- Rule table of the current checker (%d rules): " % len(rules) + " | ".join(
+                "%s: %s" % (r, d["text"]) for r, d in sorted(rules.items()))
+            if any(r.endswith((".m", ".u")) or "abstract" in d["text"] or "interpreted" in d["text"] for r, d in rules.items()) and "abstract interpretation" not in tech:
+                tech += "; finite-domain abstract interpretation of the functions named in the model-level rules against a specification written from the property"
+        except (OSError, KeyError, ValueError):
+            pass
         checks.append({
             "property_id": pid,
             "quick_cmd": "/venv/bin/python /verif/bin/check.py %s --tier quick" % pid,
